@@ -597,6 +597,7 @@ const prelude = `(set-option :produce-models true)
 (define-fun tmod ((a Int) (b Int)) Int (- a (* b (tdiv a b))))
 (declare-fun strlen (Int) Int)
 (declare-fun root (Int) Int)
+(assert (= (root 0) 0))
 (declare-fun dyntype (Int) Int)
 (declare-fun subtag (Int) Int)
 `
@@ -638,9 +639,9 @@ func (e *Exec) smtFor2(o *Obligation) (string, string) {
 	ic := &instCtx{sortOf: map[string]string{}}
 	var proc []*Sx
 	for _, h := range hyps {
-		proc = append(proc, ic.pos(h))
+		flattenAssert(ic.pos(h), &proc)
 	}
-	proc = append(proc, ic.neg(parseSx(o.Goal)))
+	flattenAssert(ic.neg(parseSx(o.Goal)), &proc)
 	if !ic.hasQ {
 		return e.smtFor(o), ""
 	}
